@@ -93,6 +93,7 @@ var TSABehaviours = []string{
 	"imprint-of-other-bytes", "imprint-other-hash", "wrong-nonce", "no-nonce",
 	"untrusted-root", "certificates-omitted", "only-leaf-included",
 	"leaf-eku-not-critical", "leaf-eku-extra", "leaf-ku-keyencipherment", "leaf-ca-true", "leaf-ku-absent",
+	"leaf-ku-contentcommitment-only", "leaf-weak-key-rsa1024", "leaf-weak-key-p224", "root-x509-version-1",
 	"ca-ku-absent", "ca-no-certsign", "ca-pathlen-too-small",
 	"token-content-type-data", "signed-attributes-missing", "message-digest-wrong", "signature-broken", "signing-cert-hash-wrong",
 	"tstinfo-version-2", "gentime-not-utc", "tsa-chain-expired", "tsa-chain-not-yet-valid",
@@ -147,8 +148,18 @@ func tsaChain(n int, defect string) *pki.Chain {
 		}
 		specs = append(specs, pki.CASpec(pki.K("p256", i), name))
 	}
-	leaf, ca := specs[0], specs[1]
+	leaf := specs[0]
+	ca := leaf // chains of length one have no CA: CA defects then land on the (self-signed) leaf
+	if n >= 2 {
+		ca = specs[1]
+	}
 	switch defect {
+	case "leaf-ku-contentcommitment-only":
+		leaf.KU = x509.KeyUsageContentCommitment
+	case "leaf-weak-key-rsa1024":
+		leaf.Key = pki.K("rsa1024", 0)
+	case "leaf-weak-key-p224":
+		leaf.Key = pki.K("p224", 0)
 	case "ocsp-pointer":
 		leaf.OCSP = []string{"http://" + TSAOCSPHost}
 	case "untrusted-root":
@@ -190,6 +201,12 @@ func tsaChain(n int, defect string) *pki.Chain {
 	if cleanLeaf != nil {
 		c.Certs[0] = cleanLeaf
 	}
+	if defect == "root-x509-version-1" && n >= 2 {
+		// the root re-made as a version 1 certificate (same name, same key)
+		if v1, err := pki.V1RootNamed(specs[n-1].Key, c.Certs[n-1].RawSubject); err == nil {
+			c.Certs[n-1] = v1
+		}
+	}
 	tsaChains[key] = c
 	return c
 }
@@ -206,6 +223,8 @@ func NewTSA(behaviour string, n int) *TSA {
 		// the authority the "untrusted-root" cases meet, asked by a caller who
 		// does trust its root
 		t.chain = tsaChain(n, "untrusted-root")
+	case "leaf-ku-contentcommitment-only", "leaf-weak-key-rsa1024", "leaf-weak-key-p224", "root-x509-version-1":
+		t.chain = tsaChain(n, behaviour)
 	case "untrusted-root", "leaf-eku-not-critical", "leaf-eku-extra", "leaf-ku-keyencipherment", "leaf-ca-true", "leaf-ku-absent", "ca-ku-absent", "ca-no-certsign", "ca-pathlen-too-small", "tsa-chain-expired", "tsa-chain-not-yet-valid":
 		t.chain = tsaChain(n, behaviour)
 	default:
